@@ -9,6 +9,8 @@ CONSTANTS
   TokPick = {1, 5, 7}
   NJoin = 2
   Thin = 1
+  MaxTr = 1
+  MaxTrW = 0
 INIT Init
 NEXT Next
 INVARIANT Export
